@@ -150,5 +150,8 @@ def run(rep):
     for res in R.file_name_cases('json'):
         rep.add_bounded(f"{P}/bounded.{res['name']}", res['ok'], res['detail'], replay={'kind': 'c06.file_name', 'fmt': 'json', 'name': res['name']})
         n += 1
+    for res in R.registry_cases('json'):
+        rep.add_bounded(f"{P}/bounded.{res['name']}", res['ok'], res['detail'], replay={'kind': 'c06.registry', 'fmt': 'json', 'name': res['name']})
+        n += 1
     rep.extra_cov['explanation'] = (f"constructor/to_dict and model-dictionary symmetry, restored-attribute read sets and the to_json call site are discharged; "
                                     f"{n} real JSON round trips (string and file, idempotent document) are a bounded stand-in and not counted as proved")
